@@ -348,7 +348,7 @@ func init() {
 			{ID: "C16-fk", Floor: 4, Run: shared("C16-fk", c04FK), Text: "(shared with C04-fk) foreign keys on every pooled connection: a reorg removes the injected-GER rows of the dropped blocks"},
 			{ID: "C16-tracked", Floor: 3, Run: shared("C16-tracked", c06Tracked), Text: "(shared with C06-tracked) a restart does not forget the tracked blocks of the subscriber"},
 			{ID: "C16-restart", Floor: 3, Run: shared("C16-restart", c05Restart), Text: "(shared with C05-restart) after a reorg the download restarts behind the last processed block"},
-			{ID: "C16-notify", Floor: 8, Run: shared("C16-notify", c06Notify), Text: "(shared with C06-notify) a tracked block is dropped only after its hash was compared with the chain: a reorged injection that was finalized meanwhile is still reported"},
+			{ID: "C16-notify", Floor: 9, Run: shared("C16-notify", c06Notify), Text: "(shared with C06-notify) a tracked block is dropped only after its hash was compared with the chain: a reorged injection that was finalized meanwhile is still reported"},
 			{ID: "C16-cursor", Floor: 1, Run: c16Cursor, Text: "[CURSOR] lower bound of the PP fetch is the loop-carried cursor"},
 			{ID: "C16-store", Floor: 8, Run: c16Store, Text: "[PROV]+[DOM]+ABI: topic/parser agreement, handler field maps, delete-by-GER / insert dispatch on the tx"},
 			{ID: "C16-handlers", Floor: 3, Run: c16Handlers, Text: "[DOM] a handler that returns nil has emitted its event; the FEP scan has no early exit"},
